@@ -23,6 +23,7 @@ Value expressions (tuples):
   ('binop', op, a, b) ('unop', op, a) ('cast', kind, a, ty) ('discr', v)
   ('call', id)                         result of opaque call event #id on this path
   ('fieldv', v, name, variant)         field of an opaque value
+  ('optref', P, mut, snapshot)         Option::as_ref/as_mut of the place P
   ('uninit', fid, n) / ('unknown', why)
 Place expressions:
   ('local', fid, n) ('deref', v) ('field', place, name, variant) ('index', place, v)
@@ -306,6 +307,10 @@ class Executor:
             if Q in st.store:
                 return st.store[Q]
             return ('load', Q, self.epoch(st, Q))
+        if b == 'optref':
+            if name == '0' and variant in ('Some', None):
+                return ('ref', ('field', base[1], '0', 'Some'), base[2])
+            return ('unknown', 'field %s of an Option<&T>' % name)
         if b == 'param':
             # by-value parameter: treat as memory rooted at the parameter
             Q = ('field', ('local', base[1], base[2]), name, variant)
@@ -476,6 +481,8 @@ class Executor:
         return ('unknown', 'rvalue ' + k)
 
     def discr_of(self, v, tystr):
+        if v[0] == 'optref':
+            return self.discr_of(v[3], 'core::option::Option')
         if v[0] == 'variant':
             adt = v[1]
             if adt in self.facts.adts:
@@ -551,11 +558,19 @@ class Executor:
         if res == '<core::option::Option as core::ops::FromResidual>::from_residual':
             # `opt?` on the None edge: the function returns None
             return ('agg', 'adt', 'core::option::Option', 'None', (), ())
+        if (res or d) in ('core::option::Option::as_ref', 'core::option::Option::as_mut') and len(args) == 1 \
+                and args[0][0] == 'ref':
+            # `opt.as_ref()` is the option seen through a reference: same discriminant as the place, payload = a
+            # reference to the place's payload (so `match x.as_ref()`, `match &x` and `Some(ref v) = x` read alike)
+            P = args[0][1]
+            return ('optref', P, (res or d).endswith('as_mut'), self.read_place(body, fid, st, P))
         if d in ('core::mem::replace',) and len(args) == 2 and args[0][0] == 'ref':
             P = args[0][1]
             old = self.read_place(body, fid, st, P)
             self.write(st, P, args[1])
-            st.events.append({'kind': 'write', 'place': P, 'value': args[1], 'old': old, 'via': 'mem::replace',
+            # `mem::replace(&mut x, Vec::new())` / `(.., None)` / `(.., Default::default())` is `mem::take(&mut x)`
+            via = 'mem::take' if self._is_default_value(st, args[1]) else 'mem::replace'
+            st.events.append({'kind': 'write', 'place': P, 'value': args[1], 'old': old, 'via': via,
                               'block': t['_block'], 'span': t['span'], 'body': body.nname, 'depth': t['_depth']})
             return old
         if d == 'core::mem::take' and len(args) == 1 and args[0][0] == 'ref':
@@ -578,6 +593,22 @@ class Executor:
                                   'depth': t['_depth']})
             return ('agg', 'tuple', '', '', (), ())
         return None
+
+    @staticmethod
+    def _is_default_value(st, v):
+        if v[0] == 'const' and v[1] == 'default':
+            return True
+        if (v[0] == 'agg' and v[2] == 'core::option::Option' and v[3] == 'None') or \
+                (v[0] == 'variant' and v[1] == 'core::option::Option' and v[2] == 'None'):
+            return True
+        if v[0] == 'call':
+            for e in reversed(st.events):
+                if e['kind'] == 'call' and e['id'] == v[1]:
+                    r = e['res'] or e['decl']
+                    return r in ('alloc::vec::Vec::new', 'alloc::string::String::new', 'alloc::collections::VecDeque::new',
+                                 'alloc::collections::BinaryHeap::new', 'core::default::Default::default') or \
+                        r.endswith(' as core::default::Default>::default')
+        return False
 
     def _ctor_call(self, name, args):
         """`Enum::Variant` / tuple-struct constructors used as functions build the aggregate."""
@@ -616,6 +647,9 @@ class Executor:
         elif k == 'agg':
             for x in v[5]:
                 self.mut_targets(x, '', acc, depth + 1)
+        elif k == 'optref':
+            if v[2]:
+                acc.append(('field', v[1], '0', 'Some'))
         elif k in ('param', 'load', 'call', 'fieldv'):
             if '&mut' in tystr:
                 acc.append(('deref', v))
@@ -849,7 +883,14 @@ class Executor:
                     prev = v[3] if (v[0] == 'havoc' and len(v) > 3) else v
                     st.store[P] = ('havoc', P, ('loop', header, visit), prev)
                     continue
-                st.store[P] = ('loopvar', fid, L, header, visit)
+                b_ = getattr(self, '_cur_body', None)
+                if visit >= 2 and b_ is not None and not isinstance(fid, tuple) and str(b_.locals[L]) == 'bool' \
+                        and v[0] in ('binop', 'unop', 'call', 'const'):
+                    # a flag variable: unknown in general, but on this path it is what the previous iteration left
+                    # (`done = backlog() == 0; while !done { .. }` is the flag form of `if backlog() == 0 { break }`)
+                    st.store[P] = ('loopvar', fid, L, header, visit, v)
+                else:
+                    st.store[P] = ('loopvar', fid, L, header, visit)
             for Q in [Q for Q in st.store if Q != P and is_prefix(P, Q)]:
                 del st.store[Q]
         # memory reached through references may have been written by earlier iterations
@@ -1011,6 +1052,8 @@ def show(v, body=None, depth=0):
         return '(%s as %s)' % (s(v[2]), v[3])
     if k == 'discr':
         return 'discr(%s)' % s(v[1])
+    if k == 'optref':
+        return '%s.as_%s()' % (s(v[1]), 'mut' if v[2] else 'ref')
     if k == 'call':
         return 'call#%d' % v[1]
     if k == 'fieldv':
